@@ -571,3 +571,75 @@ class PairingAtIndex(_Objective):
             return e
 
         return native_sweep(self, cases, envs=env, tries=2, seed=seed, name="bounded_full_model_solved_at_every_data_scale")
+
+
+class ReportedClpsGiveTheResidual(Contract):
+    """"The residual that enters the fit equals exactly data - matrix*clp" for the clps as they are *reported*: where
+    constraints and relations reduce the matrix before the solve, `retrieve_clps` rebuilds the full clp vector (a target
+    is parameter × source at the indices where its relation applies, zero where a constraint removed it, the estimate
+    otherwise) and data - scale·matrix·clp over the full labels must again be the residual of the solve.  The C03
+    result obligations that carry this, on the configurations where a clp label is missing from the reduced matrix for
+    more than one reason (a relation limited to an interval and a zero constraint on its target elsewhere, a relation
+    whose source is constrained, two relations on one target, linked groups)."""
+
+    prop = "C01"
+    name = "ReportedClpsGiveTheResidual"
+    target = "glotaran.optimization.estimation_provider:EstimationProvider.retrieve_clps"
+    functions = (
+        "glotaran.optimization.estimation_provider:EstimationProviderUnlinked.calculate",
+        "glotaran.optimization.estimation_provider:EstimationProviderLinked.calculate",
+        "glotaran.optimization.matrix_provider:MatrixProvider.reduce_matrix",
+    )
+    strength = "S"
+    agreement_runs = 0
+    CONFIGS = (
+        "relation_first_index_zero_later_dep", "relation_and_zero_same_target", "relation_and_zero_same_target_linked", "relation_zero_linked",
+        "relation_source_zero", "relation_source_zero_linked", "two_relations_same_target", "two_relations_same_target_linked",
+        "linked_tol_interval_at_aligned_value", "relation", "nnls",
+    )
+    KEEP = (
+        "no_exception", "number_of_linear_solves", "every_index_of_dataset_is_solved", "residual_is_unweighted_solve_residual_of_own_block",
+        "data_is_fitted_plus_residual", "fitted_data_is_scale_matrix_clp", "constrained_clps_are_zero", "clps_by_label_and_relations",
+    )
+
+    def _inner(self):
+        from contracts.c03_results import ResultData
+
+        return ResultData()
+
+    @property
+    def modules(self):
+        return self._inner().modules
+
+    @property
+    def trusted(self):
+        return self._inner().trusted
+
+    def cases(self, tier):
+        seen = set()
+        for case in self._inner().cases(tier):
+            if case["cfg"] in self.CONFIGS:
+                seen.add(case["cfg"])
+                yield case
+        assert seen, "no configuration selected"
+
+    def case_id(self, case):
+        return f"cfg={case['cfg']}"
+
+    def build(self, S, case):
+        return self._inner().build(S, case)
+
+    def call(self, S, case, b):
+        return self._inner().call(S, case, b)
+
+    def observe(self, out):
+        return None
+
+    def ensures(self, S, case, b, out):
+        n = 0
+        for name, cond in self._inner().ensures(S, case, b, out):
+            if name.startswith(self.KEEP):
+                n += 1
+                yield name, cond
+        if n == 0:
+            yield "reported_clp_obligations_generated", False
